@@ -1,8 +1,9 @@
 #!/bin/bash
 # usage: try_revert.sh <fix commit> <property id> [tier] -- reverts the commit in a scratch worktree and runs the check against it
+VERIF=$(cd "$(dirname "$0")/.." && pwd)
 C=$1; PID=$2; TIER=${3:-quick}
 WT=/tmp/revtry-$C-$$
 git -C /repo worktree add -q --detach $WT HEAD || exit 2
-trap 'git -C /repo worktree remove --force $WT 2>/dev/null; rm -rf $WT; rm -f /verif/harness/alt_tmp_revtry*' EXIT
+trap 'git -C /repo worktree remove --force $WT 2>/dev/null; rm -rf $WT; rm -f $VERIF/harness/alt_tmp_revtry*' EXIT
 git -C $WT revert --no-commit $C >/dev/null 2>&1 || { echo "revert failed"; exit 2; }
-cd /verif && VERIF_REPO=$WT timeout 3000 python3 tools/check.py $PID --tier $TIER 2>&1 | grep -v '^KNOWN-FINDING' | tail -3
+cd $VERIF && VERIF_REPO=$WT timeout 3000 python3 tools/check.py $PID --tier $TIER 2>&1 | grep -v '^KNOWN-FINDING' | tail -3
